@@ -284,7 +284,7 @@ var StructTypes = []reflect.Type{
 	T(CN1{}), T(CN2{}), T(NMapHolder{}),
 	T(ManyF{}), T(ManyL{}),
 	T(Node{}), T(FNode{}), T(Ping{}), T(Pong{}), T(ENode{}), T(DeepNil{}),
-	T(MapAndLists{}), T(Wrap{}), T(WrapList{}), T(PtrTime{}), T(Named{}), T(SelfAny{}), T(SelfAnyList{}), T(PtrConts{}),
+	T(MapAndLists{}), T(Wrap{}), T(WrapList{}), T(PtrTime{}), T(Named{}), T(SelfAny{}), T(SelfAnyList{}), T(PtrConts{}), T(MutA{}), T(MutB{}), T(MpKeyStruct{}),
 }
 
 // TypeByName finds a zoo struct type.
@@ -388,11 +388,16 @@ type BinCarrier struct {
 // ---- carriers for C10
 
 type TimeCarrier struct {
-	T  time.Time
-	L  []time.Time
-	M  map[string]time.Time
-	A  []interface{}
-	T2 time.Time
+	T   time.Time
+	L   []time.Time
+	M   map[string]time.Time
+	A   []interface{}
+	T2  time.Time
+	PT1 *time.Time
+	PT2 *time.Time
+	P1  *Inner
+	P2  *Inner
+	LP  []*time.Time
 }
 
 // ---- carriers for C05 (3, 4, 5 and 9 fields; scalar, string, list, nested-object fields)
@@ -510,6 +515,7 @@ type PtrConts struct {
 	Likes *InnerList
 	Marks *map[string]*Inner
 	Nums  *[]int32
+	Nums2 *[]int32
 	Same  *map[string]*Inner
 	Tags  map[string]*Inner
 	IL    InnerList
@@ -518,3 +524,24 @@ type PtrConts struct {
 // Tree / JMap: recursive container types (a list of lists of ..., a map of maps of ...).
 type Tree []Tree
 type JMap map[string]JMap
+
+// ---- mutually recursive types with an interface slot; a struct-keyed map
+
+type MutA struct {
+	B *MutB
+	X []interface{}
+	N int32
+}
+type MutB struct {
+	A  *MutA
+	As []*MutA
+}
+
+type KeyT struct {
+	A int32
+	S string
+}
+type MpKeyStruct struct {
+	M map[KeyT]string
+	N int32
+}
